@@ -160,4 +160,26 @@ def check(facts):
             r.fail("%s applies reverse_cats" % fin, "Parser::finalize no longer walks the IR with reverse_cats", facts.loc(fin))
     else:
         r.error("anchor %s not found" % fin)
+    # the byte lowering merges adjacent caseless code points into one forward-compared ByteSequence: inside a lookbehind the
+    # *pieces* it returns are reversed, never the code points fed to it (the utf16 sibling, which emits one node per code point,
+    # reverses the code points instead)
+    for fn in sorted(facts.body_names()):
+        if not fn.startswith("emit::") or "{closure" in fn:
+            continue
+        b = facts.body(fn)
+        for bb, t in b.iter_calls():
+            if not (t.get("callee") or "").endswith("lower_code_point_sequence") or not t["args"]:
+                continue
+            key = "%s lowers the code points in pattern order" % fn
+            a0 = t["args"][0]
+            ok = False
+            if a0.get("k") in ("copy", "move"):
+                rt, pr = b.root_of(a0["pl"]["l"])
+                ok = 1 <= rt <= b.argc and "[u32]" in b.local_ty(rt).replace(" ", "")
+            if ok:
+                r.ok(key, "argument is the parameter slice itself")
+            else:
+                r.fail(key, "lower_code_point_sequence is given a rearranged copy of the code points (line %s): it merges adjacent caseless "
+                            "code points into one ByteSequence that is compared forwards, so a reversed input spells the string backwards "
+                            "inside a lookbehind (`(?<=[\\q{ab}])x` matches \"bax\")" % t.get("line"), facts.loc(fn, t.get("line")))
     return r
